@@ -104,6 +104,16 @@ add("C13", "O", "fault_enumeration",
     "defects found here were repaired by fix: commits (known_findings.jsonl).",
     "exhaustive single-fault enumeration over option messages + seeded setter histories, reference option table", "DESIGN.md 5/C13")
 
+add("C15", "G", "exploration",
+    "The real coordinator run_model_no_trade runs inside the simulator while the per-country worker is replaced by a seeded stub "
+    "returning ratios from {0, (0,1), 1 +- 10^-k, >1, NaN}; NaN is the failed-worker fault. Selections: empty, inclusion, exclusion, "
+    "mixed, unknown codes, duplicates, SWT; population overridden through the option dictionary. Reference model from the statement: "
+    "run set semantics, net_pop, net_pop_fed = sum pop*min(1, ratio), bounds, every run country once in results, worker called once per "
+    "country. A slice of histories uses the real worker (2-4 countries) to validate that the stub boundary carries the same values.",
+    "Trusted: reference selection/mean model in sim/checks/c15.py; for mixed lists only the invariants are demanded (the statement fixes "
+    "no run set); a failed (NaN) country is absent from results by the coordinator's contract.",
+    "coordinator real, per-country worker stubbed with seeded ratios and failures; reference aggregation model", "DESIGN.md 5/C15")
+
 NOT_APPLICABLE = [
     {"property_id": "C10", "reason": "pure function of (value, unit names, four settings); nothing to schedule, fail or interleave - property-based enumeration is the right tool, outside this technique family (DESIGN.md 6)"},
     {"property_id": "C12", "reason": "relates the optimum of one LP to optima of perturbed copies: counterfactual re-solves of a pure function, not behaviour under any schedule or fault (DESIGN.md 6)"},
@@ -129,6 +139,7 @@ def main():
         },
         "engines": [
             {"name": "A", "path": "sim/engine_a.py", "serves_properties": ["C11"], "kind_free_text": "stateful op machine over real Food objects with environment (process-wide flag) ops and a reference label algebra"},
+            {"name": "G", "path": "sim/engine_g.py", "serves_properties": ["C15"], "kind_free_text": "real multi-country coordinator with the per-country worker replaced by a seeded stub (real in a sampled slice)"},
             {"name": "O", "path": "sim/engine_o.py", "serves_properties": ["C13"], "kind_free_text": "option-message fault enumeration against the real dispatcher/setters; pipeline stubbed after dispatch"},
             {"name": "P", "path": "sim/engine_p.py", "serves_properties": ["C01", "C02", "C03", "C04", "C05", "C14", "C16", "C18"], "kind_free_text": "real pipeline (dispatch, parameters, 3 LP rounds, extract/interpret/validate, herd simulator, PuLP+CBC) inside simulated clock / results FS / solver seam with fault injection"},
         ],
